@@ -71,7 +71,9 @@ def check_word(word, max_delay, ctx, case_extra=None) -> None:
             return
 
 
-LIFETIME_PATTERNS = ([1.0], [3.0, 1.0], [7.0, 3.0, 3.0], [20.0, 1.0, 1.0, 7.0], [0.5, 0.5, 0.5], [4.9, 5.1, 5.0])
+LIFETIME_PATTERNS = ([1.0], [3.0, 1.0], [7.0, 3.0, 3.0], [20.0, 1.0, 1.0, 7.0], [0.5, 0.5, 0.5], [4.9, 5.1, 5.0],
+                     # losses at fractional instants, less than the threshold apart although their whole seconds differ by the threshold
+                     [0.9, 4.3, 4.3], [2.7, 4.4, 0.95], [0.95, 4.1, 4.95])
 CONFIGS = (
     {},
     {"connection_lost_back_off_threshold": 2, "connection_lost_back_off_sleep_sec": 9, "max_delay": 4},
@@ -297,6 +299,20 @@ def _run(shard, ctx):
                     ctx.count("manager_scenarios_with_slow_attempts")
                     m += 1
             ctx.enumerated(m, m)
+            # dead on arrival: connection_lost() has already run when the factory returns - still a connection that was made and lost
+            d = 0
+            for length in range(1, 5):
+                for word in itertools.product(("ok", "fail", "ok_dead"), repeat=length):
+                    if "ok_dead" not in word:
+                        continue
+                    cfg = CONFIGS[d % len(CONFIGS)]
+                    lifetimes = LIFETIME_PATTERNS[d % len(LIFETIME_PATTERNS)]
+                    res = run_manager_scenario(word, lifetimes, cfg, ctx)
+                    case = {"word": list(word), "lifetimes": lifetimes, "cfg": cfg}
+                    ctx.count("gaps_judged", judge_manager(res["events"], cfg, ctx, case))
+                    ctx.count("manager_scenarios_with_a_connection_that_is_dead_on_arrival")
+                    d += 1
+            ctx.enumerated(d, d)
 
 
 def replay(case, ctx):
